@@ -17,7 +17,8 @@ func init() {
 		return
 	}
 	run := p.run
-	p.run = func(r *Run) { run(r); c19ImportAsked(r) }
+	p.run = func(r *Run) { run(r); c19ImportAsked(r); c10PooledSlots(r, "R-7") }
+	p.explain += " R-7: in the function taking the argument slice from the pool, no branch condition reads the previous value of a slot (a stale native.Env of an earlier run would select that run's print hook)."
 	p.explain += " R-6: in the function that calls Importer.Import, every success return of the branch holding the call passes through the call."
 }
 
